@@ -30,6 +30,53 @@ def impl(case):
             return {"out": "RuntimeError", "msg": str(e), "site": site}
         except (ValueError, AssertionError, StopIteration, KeyError, IndexError) as e:
             return {"out": "other", "type": type(e).__name__, "msg": str(e)[:100]}
+    if case["op"] == "record":
+        # one real run of compile_target with the answers of the helpers that the search translation does not translate recorded in call
+        # order (a tree: the answers consulted inside compile / _case3_best_reordering form a sub-list), so that the Gallina translation can
+        # be evaluated on the same answers and compared with what the real code returned (validation of the translator by execution)
+        import paulie.application.pauli_compiler as pc
+        N, k, t = case["N"], case["k"], case["target"]
+        stack = [[]]
+        def wrap_scope(cls, name):
+            orig = getattr(cls, name)
+            def f(self, *a, **kw):
+                stack.append([])
+                try:
+                    return orig(self, *a, **kw)
+                finally:
+                    sub = stack.pop(); stack[-1].append(["sub", sub])
+            setattr(cls, name, f); return orig
+        def wrap_helper(cls, name, kind):
+            orig = getattr(cls, name)
+            def f(self, *a, **kw):
+                try:
+                    r = orig(self, *a, **kw)
+                except Exception as e:  # noqa
+                    stack[-1].append(["raise", type(e).__name__]); raise
+                if kind == "lps": r = list(r); stack[-1].append(["lps", [str(x) for x in r]])
+                elif kind == "pairs": r = list(r); stack[-1].append(["pairs", [[str(x), str(y)] for x, y in r]])
+                else:
+                    r = [list(q) for q in r]      # a generator: materialised (the translation reads its answer as a list)
+                    stack[-1].append(["llps", [[str(x) for x in q] for q in r]])
+                return r
+            setattr(cls, name, f); return orig
+        saved = [(pc.OptimalPauliCompiler, "compile", wrap_scope(pc.OptimalPauliCompiler, "compile")),
+                 (pc.OptimalPauliCompiler, "_case3_best_reordering", wrap_scope(pc.OptimalPauliCompiler, "_case3_best_reordering")),
+                 (pc.SubsystemCompiler, "subsystem_compiler", wrap_helper(pc.SubsystemCompiler, "subsystem_compiler", "lps")),
+                 (pc.OptimalPauliCompiler, "_candidate_decompositions", wrap_helper(pc.OptimalPauliCompiler, "_candidate_decompositions", "pairs")),
+                 (pc.OptimalPauliCompiler, "_all_interleavings_preserving", wrap_helper(pc.OptimalPauliCompiler, "_all_interleavings_preserving", "llps")),
+                 (pc.OptimalPauliCompiler, "_all_interleavings_preserving4", wrap_helper(pc.OptimalPauliCompiler, "_all_interleavings_preserving4", "llps"))]
+        try:
+            try:
+                seq = pc.compile_target(PauliString(pauli_str=t), k_left=k)
+                out = {"out": "seq", "seq": [str(x) for x in seq]}
+            except Exception as e:  # noqa
+                out = {"out": "exc", "type": type(e).__name__}
+        finally:
+            for cls, name, orig in saved: setattr(cls, name, orig)
+        out["stream"] = stack[0]
+        out["size"] = sum(1 for _ in str(stack[0]))
+        return out
     if case["op"] == "universal":
         res = []
         for N, k in case["items"]:
@@ -94,3 +141,63 @@ def compile_cases(ck, quick):
         if ck.rng.random() < 0.34:
             c["reuse"] = True
     return cases
+
+
+def coq_pstr(t):
+    return "[" + ";".join("P" + ch for ch in t) + "]"
+
+
+def coq_stream(st):
+    out = []
+    for kind, v in st:
+        if kind == "sub": out.append("OSub " + coq_stream(v))
+        elif kind == "lps": out.append("OLps [" + ";".join(coq_pstr(x) for x in v) + "]")
+        elif kind == "pairs": out.append("OPairs [" + ";".join("(%s,%s)" % (coq_pstr(a), coq_pstr(b)) for a, b in v) + "]")
+        elif kind == "llps": out.append("OLLps [" + ";".join("[" + ";".join(coq_pstr(x) for x in q) + "]" for q in v) + "]")
+        elif kind == "raise": out.append('ORaise (EUser "%s"%%string)' % v)
+    return "[" + "; ".join(out) + "]"
+
+
+def validate_translation_by_execution(ck, count):
+    """the generated Gallina of the search target (.work/gen_<id>_search/SearchGen.v, written by check_translation in this run) evaluated by
+    vm_compute on the recorded helper answers of real runs, compared with what the real runs returned"""
+    import subprocess, re
+    from harness.common import WORK, VERIF
+    gen = os.path.join(WORK, "gen_%s_search" % ck.pid)
+    if not os.path.exists(os.path.join(gen, "SearchGen.vo")):
+        return None
+    cases = []
+    for N in (3, 4):
+        for k in range(2, N):
+            ts = targets(N); ck.rng.shuffle(ts)
+            cases += [{"op": "record", "N": N, "k": k, "target": t} for t in ts[:count // 3]]
+    res = ck.impl("c05", cases, per_case_s=120, procs=15)
+    lines, kept = [], []
+    for c, r in zip(cases, res):
+        if "exc" in r or r.get("size", 10 ** 9) > 150000:
+            continue
+        if r["out"] == "seq":
+            exp = "FRet [" + ";".join(coq_pstr(x) for x in r["seq"]) + "]"
+        else:
+            exp = 'FRaised (EUser "%s"%%string)' % r["type"]
+        fuel = 2 * 4 ** c["k"] + 2
+        lines.append("Definition c%d : bool := same (py_S_compile_target %d %s %d %s) (%s)." % (len(kept), fuel, coq_pstr(c["target"]), c["k"], coq_stream(r["stream"]), exp))
+        kept.append((c, r))
+    src = ["From PauLieRefine Require Import PySem.", "From PauLie Require Import Pauli Compiler.", "From PauLieGen Require Import SearchGen.", "Open Scope Z_scope.",
+           "Fixpoint lps_eqb (a b : list pstr) : bool := match a, b with [], [] => true | x :: a', y :: b' => pstr_eqb x y && lps_eqb a' b' | _, _ => false end.",
+           "Definition exn_eqb (a b : exn) : bool := match a, b with EUser x, EUser y => String.eqb x y | EZeroDivision, EZeroDivision | EKey, EKey | EType, EType | EIndex, EIndex => true | _, _ => false end.",
+           "Definition same (r e : fres (list pstr)) : bool := match r, e with FRet a, FRet b => lps_eqb a b | FRaised a, FRaised b => exn_eqb a b | _, _ => false end."]
+    src += lines
+    src.append("Definition all_ := [%s]." % "; ".join("c%d" % i for i in range(len(kept))))
+    src.append("Eval vm_compute in all_.")
+    path = os.path.join(gen, "RunCases.v")
+    open(path, "w").write("\n".join(src) + "\n")
+    q = "-Q Model PauLie -Q Theory PauLie -Q Refine PauLieRefine -Q %s PauLieGen -w -notation-overridden,-deprecated" % gen
+    r = subprocess.run(["bash", "-c", "ulimit -s unlimited; cd %s/coq && timeout 900 coqc %s %s 2>&1" % (VERIF, q, path)], capture_output=True, text=True)
+    txt = r.stdout
+    m = re.search(r"=\s*\[(.*?)\]\s*:\s*list bool", txt, re.S)
+    if r.returncode != 0 or not m:
+        return {"cases": len(kept), "error": txt[-600:]}
+    vals = [v.strip() for v in m.group(1).replace("\n", " ").split(";")] if m.group(1).strip() else []
+    bad = [kept[i][0] for i, v in enumerate(vals) if v != "true"]
+    return {"cases": len(kept), "agree": sum(1 for v in vals if v == "true"), "disagree": bad, "returned": sum(1 for _, r in kept if r["out"] == "seq")}
